@@ -12,7 +12,8 @@ R.record('Fut', cls=FU,
     immutable={'id': 'Fid'},
     pure={'done': '(self._state == FutureState.FINISHED) or (self._state == FutureState.CANCELLED)',
           'cancelled': 'self._state == FutureState.CANCELLED'},
-    ctor={'_state': 'FutureState.PENDING', '_ex': 'None', '_result': 'None'})
+    ctor={'_state': 'FutureState.PENDING', '_ex': 'None', '_result': 'None'},
+    ctor_assume=[C("result.id not in STARTED", 'A-ids-fresh: itertools.count() hands a new future an id for which no process has been started yet')])
 R.annotation_sorts.update({'Future': 'Fut'})
 
 R.contract(f'{FU}.done', self_type='Fut', returns='Bool', pure=True,
@@ -69,6 +70,11 @@ R.cls(PE,
         C("forall('Fut', lambda f: implies(f in PEND(self), not f.done))", 'E3b: queued futures are pending'),
         C("forall('Fut', lambda f: implies(f in PEND(self), f.id not in RUN(self)))", 'E4: queued and running are disjoint'),
         C("self.max_workers >= 1", 'E0: max_workers >= 1 (A-limits)'),
+        C("forall('Fid', lambda i: implies(i in RUN(self), i not in DELIVERED))", 'E5: the item of a running future has not been taken off the queue yet', serves=('C01',)),
+        C("forall('Fid', lambda i: implies(i in RUN(self), proc_fid(RUN(self)[i][1]) == i))", 'E6: a running entry pairs a future with the process started for it', serves=('C01',)),
+        C("forall('Fut', lambda f: implies(f in PEND(self), f.id not in STARTED))", 'E7: a queued future has not been started', serves=('C01',)),
+        C("subset(DELIVERED, STARTED)", 'E8 (world invariant of the TRUSTED queue model, assumed): only items of started processes have ever been delivered -- '
+                                        'both sets are written by trusted primitives only (get delivers ids in STARTED, start only adds)', serves=('A-queue',)),
     ])
 
 # trusted multiprocessing / threading / queue primitives (assumed contracts; every use is counted in the evidence)
@@ -76,7 +82,18 @@ R.func('proc_ctx', ['Proc'], 'MpCtx')          # which multiprocessing context c
 R.func('DEFAULT_MP_CTX', [], 'MpCtx')          # the interpreter-wide default start method (fork on Linux)
 R.func('proc_fid', ['Proc'], 'Fid')            # future id passed to the child
 R.func('proc_thunk', ['Proc'], 'Thunk')
-R.func('alive_sample', ['Proc'], 'Bool')       # what is_alive() answered at the single sampling point of a wait
+# ---- ghost time for the one place where the ORDER of two observations of the outside world matters (C01, C10):
+#      _consume_result_queue samples is_alive() BEFORE it drains the result queue.  QEPOCH counts the get() calls made so far;
+#      alive_at(p, e) is what is_alive() answers for p at epoch e; DELIVERED are the future ids whose item has been taken off
+#      the queue; put_result(p): process p put an item on the result queue before it exited.
+R.func('alive_at', ['Proc', 'Int'], 'Bool')
+R.func('put_result', ['Proc'], 'Bool')
+R.globals['QEPOCH'] = 'Int'
+R.globals['DELIVERED'] = 'Set[Fid]'
+R.macro('NOSTALE', ['ex'], "forall('Fid', lambda j: implies((j in DELIVERED) and (j not in old(DELIVERED)), j in old(RUN(ex))))")
+R.globals['STARTED'] = 'Set[Fid]'         # GHOST: future ids for which a process has been started
+R.axiom("forall('Proc','Int','Int', lambda p, a, b: implies((a <= b) and (not alive_at(p, a)), not alive_at(p, b)))",
+        name='TRUSTED: a process that is_alive() reported dead stays dead')
 R.named_tuples['Tuple[Fid,Thunk,Queue]'] = ['future_id', 'thunk', 'result_queue']
 R.contract('trusted:multiprocessing.Process', trusted=True,
     params={'target': 'TargetFn', 'kwargs': 'Tuple[Fid,Thunk,Queue]'}, returns='Proc',
@@ -87,15 +104,25 @@ R.contract('trusted:MpCtx.Process', trusted=True, self_type='MpCtx',
     ensures=["proc_ctx(result) == self", "proc_fid(result) == kwargs[0]", "proc_thunk(result) == kwargs[1]"],
     note='BaseContext.Process creates a process that is started with that context\'s start method')
 R.alias('MpCtx', 'Process', 'trusted:MpCtx.Process')
-R.contract('trusted:Proc.start', trusted=True, self_type='Proc', params={}, frame=[], note='starts the child; no effect on tracked state')
+R.contract('trusted:Proc.start', trusted=True, self_type='Proc', params={}, ensures=["STARTED == sadd(old(STARTED), proc_fid(self))"], frame=['@STARTED'],
+    note='starts the child (ghost: its future id joins STARTED)')
 R.alias('Proc', 'start', 'trusted:Proc.start')
 R.contract('trusted:Proc.terminate', trusted=True, self_type='Proc', params={}, frame=[])
 R.alias('Proc', 'terminate', 'trusted:Proc.terminate')
-R.contract('trusted:Proc.is_alive', trusted=True, self_type='Proc', params={}, returns='Bool', pure=True, defn='alive_sample(self)')
+R.contract('trusted:Proc.is_alive', trusted=True, self_type='Proc', params={}, returns='Bool', pure=True, defn='alive_at(self, QEPOCH)',
+    note='Process.is_alive() at the current ghost epoch')
 R.alias('Proc', 'is_alive', 'trusted:Proc.is_alive')
 R.contract('trusted:functools.partial', trusted=True, params={}, returns='Thunk', varargs=True, pure=False, frame=[])
 R.contract('trusted:Queue.get', trusted=True, self_type='Queue', params={'block': 'Bool', 'timeout': 'Opt[Int]'},
-    returns='Tuple[Fid,ResOrEx]', raises={'Empty': []}, frame=[],
+    returns='Tuple[Fid,ResOrEx]',
+    ensures=[C("QEPOCH == old(QEPOCH) + 1", 'ghost clock'),
+             C("(result[0] not in old(DELIVERED)) and (DELIVERED == sadd(old(DELIVERED), result[0]))", 'TRUSTED: each queued item is delivered exactly once'),
+             C("result[0] in STARTED", 'TRUSTED: only a started process can have put an item')],
+    raises={'Empty': [C("QEPOCH == old(QEPOCH) + 1", 'ghost clock'), C("DELIVERED == old(DELIVERED)", 'nothing delivered'),
+                      C("forall('Proc', lambda p: implies((not alive_at(p, old(QEPOCH))) and put_result(p), proc_fid(p) in DELIVERED))",
+                        'TRUSTED causality of Manager().Queue: when get() reports the queue empty, every item put by a process that had already exited '
+                        'when this get() was called has been delivered (a put that returned in the child is visible to a later get in the parent)')]},
+    frame=['@QEPOCH', '@DELIVERED'],
     note='Manager().Queue.get: returns some queued (future_id, result_or_exception) pair or raises queue.Empty')
 R.alias('Queue', 'get', 'trusted:Queue.get')
 R.func('roe_is_exc', ['ResOrEx'], 'Bool')
@@ -119,7 +146,7 @@ R.contract(f'{PE}._start_processes',
                'each started future gets a process created from the backend\'s own context', serves=('C16',)),
              C("forall('Fut', lambda f: implies(f in PEND(self), PEND(self)[f] == old(PEND(self))[f]))", 'thunks kept'),
              ],
-    frame=['self._pending_future_to_thunk', 'self._running_id_to_future_and_process'],
+    frame=['self._pending_future_to_thunk', 'self._running_id_to_future_and_process', '@STARTED'],
     cand_locals=('futures_to_start', 'start_count'),
     candidates=[
         "forall('Fid', lambda i: implies(i in RUN(self), RUN(self)[i][0].id == i))",
@@ -134,6 +161,12 @@ R.contract(f'{PE}._start_processes',
         "forall('Fut', lambda f: implies(f in __done__, (f.id in RUN(self)) and (RUN(self)[f.id][0] == f)))",
         "card(dom(RUN(self))) == card(dom(old(RUN(self)))) + card(__done__)",
         "subset(futures_to_start, dom(old(PEND(self))))",
+        "forall('Fid', lambda i: implies(i in RUN(self), i not in DELIVERED))",
+        "forall('Fid', lambda i: implies(i in RUN(self), proc_fid(RUN(self)[i][1]) == i))",
+        "forall('Fut', lambda f: implies(f in PEND(self), f.id not in STARTED))",
+        "subset(DELIVERED, STARTED)",
+        "subset(old(STARTED), STARTED)",
+        "forall('Fid', lambda i: implies((i in STARTED) and (i not in old(STARTED)), exists('Fut', lambda f: (f in __done__) and (f.id == i))))",
     ])
 
 R.contract(f'{PE}.submit',
@@ -149,7 +182,7 @@ R.contract(f'{PE}.submit',
              C("forall('Fut', lambda f: implies(f != result, f._state == old(f._state)))", 'other futures untouched'),
              C("forall('Fid', lambda i: implies((i in RUN(self)) and (i not in old(RUN(self))), (proc_ctx(RUN(self)[i][1]) == self.mp_context)))", 'started from own context', serves=('C16',)),
              ],
-    frame=['self._pending_future_to_thunk', 'self._running_id_to_future_and_process', 'Fut._state', 'Fut._ex', 'Fut._result'])
+    frame=['self._pending_future_to_thunk', 'self._running_id_to_future_and_process', 'Fut._state', 'Fut._ex', 'Fut._result', '@STARTED'])
 
 R.contract(f'{PE}.cancel',
     self_type='Obj[ProcessExecutor]', params={},
@@ -185,13 +218,31 @@ R.contract(f'{PE}._consume_result_queue',
              C("forall('Fid', lambda i: implies(i in RUN(self), (i in old(RUN(self))) and (RUN(self)[i] == old(RUN(self))[i])))", 'running only shrinks'),
              C("forall('Fid', lambda i: implies((i in old(RUN(self))) and (i not in RUN(self)), old(RUN(self))[i][0].done))",
                'a future leaves the running map only when it is done', serves=('C11', 'C10', 'C01')),
-             C("forall('Fid', lambda i: implies((i in old(RUN(self))) and (not alive_sample(old(RUN(self))[i][1])), i not in RUN(self)))",
+             C("forall('Fid', lambda i: implies((i in old(RUN(self))) and (not alive_at(old(RUN(self))[i][1], old(QEPOCH))), i not in RUN(self)))",
                'a process sampled dead does not stay registered as running', serves=('C11', 'C05', 'C10')),
              C("forall('Fut', lambda f: implies(old(f.done), f._state == old(f._state)))", 'done futures never change state', serves=('C11', 'C14')),
+             C("implies(NOSTALE(self), forall('Fid', lambda i: implies((i in old(RUN(self))) and (i not in RUN(self)) and (i not in DELIVERED), not put_result(old(RUN(self))[i][1]))))",
+               'DIED-FOR-REAL: a future that leaves the running map without its item having been delivered (i.e. is failed with TaskDiedError) belongs to a process '
+               'that exited without putting a result -- a task whose result is on the queue is never reported as died. Hypothesis NOSTALE: every item delivered in this '
+               'call belonged to a future registered as running (an item left behind by a process that stop() terminated makes the consumer thread die; only after a second interrupt)',
+               serves=('C01', 'C10')),
              ],
-    frame=['self._running_id_to_future_and_process', 'Fut._state', 'Fut._ex', 'Fut._result'],
+    frame=['self._running_id_to_future_and_process', 'Fut._state', 'Fut._ex', 'Fut._result', '@QEPOCH', '@DELIVERED'],
     cand_locals=('dead_process_futures',),
     candidates=[
+        "QEPOCH >= old(QEPOCH)",
+        "subset(old(DELIVERED), DELIVERED)",
+        "forall('Fid', lambda i: implies(i in RUN(self), i not in DELIVERED))",
+        "forall('Fid', lambda i: implies(i in RUN(self), proc_fid(RUN(self)[i][1]) == i))",
+        "forall('Fut', lambda f: implies(f in PEND(self), f.id not in STARTED))",
+        "subset(DELIVERED, STARTED)",
+        "forall('Fid', lambda i: implies((i in old(RUN(self))) and (i not in RUN(self)), i in DELIVERED))",
+        "forall('Fid', lambda i: implies((i in old(RUN(self))) and (i in DELIVERED), old(RUN(self))[i][0].done))",
+        "implies(NOSTALE(self), forall('Fid', lambda i: implies((i in old(RUN(self))) and (i not in RUN(self)) and (i not in DELIVERED), not put_result(old(RUN(self))[i][1]))))",
+        "forall('Fid', lambda i: implies((i in DELIVERED) and (i not in old(DELIVERED)) and (i in old(RUN(self))), i not in RUN(self)))",
+        "forall('Fut', lambda f: implies(f in dead_process_futures, exists('Fid', lambda i: (i in old(RUN(self))) and (old(RUN(self))[i][0] == f) and (not alive_at(old(RUN(self))[i][1], old(QEPOCH))) and (proc_fid(old(RUN(self))[i][1]) == i))))",
+        "implies(NOSTALE(self), forall('Fid', lambda i: implies((i in old(RUN(self))) and (not alive_at(old(RUN(self))[i][1], old(QEPOCH))) and put_result(old(RUN(self))[i][1]), i in DELIVERED)))",
+
         "forall('Fid', lambda i: implies(i in RUN(self), RUN(self)[i][0].id == i))",
         "forall('Fid', lambda i: implies(i in RUN(self), not RUN(self)[i][0].done))",
         "forall('Fid', lambda i: implies(i in RUN(self), (i in old(RUN(self))) and (RUN(self)[i] == old(RUN(self))[i])))",
@@ -200,8 +251,8 @@ R.contract(f'{PE}._consume_result_queue',
         "card(dom(RUN(self))) <= self.max_workers",
         "forall('Fut', lambda f: implies(f in PEND(self), not f.done))",
         "forall('Fut', lambda f: implies(f in PEND(self), f.id not in RUN(self)))",
-        "forall('Fut', lambda f: implies(f in dead_process_futures, exists('Fid', lambda i: (i in old(RUN(self))) and (old(RUN(self))[i][0] == f) and (not alive_sample(old(RUN(self))[i][1])))))",
-        "forall('Fid', lambda i: implies((i in old(RUN(self))) and (not alive_sample(old(RUN(self))[i][1])), old(RUN(self))[i][0] in dead_process_futures))",
+        "forall('Fut', lambda f: implies(f in dead_process_futures, exists('Fid', lambda i: (i in old(RUN(self))) and (old(RUN(self))[i][0] == f) and (not alive_at(old(RUN(self))[i][1], old(QEPOCH))))))",
+        "forall('Fid', lambda i: implies((i in old(RUN(self))) and (not alive_at(old(RUN(self))[i][1], old(QEPOCH))), old(RUN(self))[i][0] in dead_process_futures))",
         "forall('Fut', lambda f: implies((f in __done__) and exists('Fid', lambda i: (i in old(RUN(self))) and (old(RUN(self))[i][0] == f)), f.id not in RUN(self)))",
     ])
 
@@ -219,7 +270,7 @@ R.contract(f'{PE}.wait',
              C("forall('Fid', lambda i: implies((i in old(RUN(self))) and (i not in RUN(self)), old(RUN(self))[i][0].done))", 'a future leaves the running map only when done', serves=('C11', 'C10')),
              C("forall('Fid', lambda i: implies((i in RUN(self)) and (i not in old(RUN(self))), (proc_ctx(RUN(self)[i][1]) == self.mp_context)))", 'started from own context', serves=('C16',)),
              ],
-    frame=['self._pending_future_to_thunk', 'self._running_id_to_future_and_process', 'Fut._state', 'Fut._ex', 'Fut._result'])
+    frame=['self._pending_future_to_thunk', 'self._running_id_to_future_and_process', 'Fut._state', 'Fut._ex', 'Fut._result', '@QEPOCH', '@DELIVERED', '@STARTED'])
 
 
 # C14, scope S2: a KeyboardInterrupt delivered at any statement boundary inside the executor's own methods leaves the
